@@ -336,7 +336,7 @@ func TestC11(t *testing.T) {
 	hx.Check[c11Case]{
 		Property: "C11", Part: "canonical",
 		Rule:  "rapid-generated links/layouts (all members nil/empty/populated, strings with quotes, backslashes, controls, non-ASCII, nested by-products) x re-serialisation style x optional one-leaf mutation; non-trivial = a string needing escape or non-ASCII, a non-integral number, or a one-field-difference pair; distinct by canonical case JSON",
-		Cases: hx.Pick(2000, 200000),
+		Cases: hx.Pick(2000, 100000),
 		Gen:   c11Gen, Run: c11Run,
 	}.Execute(t)
 }
